@@ -81,6 +81,9 @@ def _run(prop, repo, tier):
     from ..framework_rules import check_config_passthrough
 
     check_config_passthrough(prop, res, repo)
+    from ..framework_rules import check_config_stable
+
+    check_config_stable(prop, res, repo)
     res.universe = {"classes": GROUPS[prop]}
     return res, cas
 
